@@ -36,7 +36,8 @@ def case_strategy(draw, big=False):
         lds.append(l)
     case['loads'] = lds
     ph = draw(st.floats(0, 2 * math.pi))
-    mag = draw(gen.logf(1e-3, 1e3))
+    # (a fifth of the factors is extreme: the solution is linear at every magnitude)
+    mag = draw(gen.logf(1e-3, 1e3)) if draw(st.integers(0, 4)) else draw(gen.logf(1e-18, 1e12))
     case['factor'] = [gen.r6(mag * math.cos(ph)), gen.r6(mag * math.sin(ph))]
     case['pwr'] = gen.r6(draw(gen.logf(1e-3, 1e5)))
     return case
